@@ -63,6 +63,7 @@ trigger of a known finding (see known_findings.d/C12.json).
 
 from __future__ import annotations
 
+import copy
 import itertools
 import re
 import sys
@@ -269,25 +270,43 @@ def _coords(t):
     return [tuple(int(x) for x in g[1:].split(",")) for g in t.tags if _SITE_RE.match(g)]
 
 
-def merged_bond_max(tn, per_index=False):
+def merged_bond_max(tn, per_index=False, L=None, cyc=None, wrap_compressed=False):
     """largest bond between two boundary tensors (tensors that absorbed more
-    than one site), and how many such tensors there are.  Pairs that are only
-    neighbours through a periodic (wrap-around) bond are skipped: 'mps' /
-    'full-bond' never compress the wrap bond of a boundary line, so it is not
-    a bond the scheme has compressed."""
+    than one site), and how many such tensors there are.  The bond of a pair is
+    the TOTAL size of everything the two share (an unfused multi-bond must not
+    hide behind max_bond()).  On a periodic lattice (``L``, ``cyc`` given):
+
+      * a pair that is only neighbours AROUND the lattice counts in full when
+        the mode compresses the wrap-around bond of a boundary line
+        (``wrap_compressed``: every mode but 'mps' / 'full-bond', which never
+        touch it) and is skipped otherwise;
+      * a pair that is neighbours both directly and around (two boundaries
+        facing each other twice) is compressed bond by bond: per index."""
     qtn = _qtn()
     ts = [(t, _coords(t)) for t in tn if n_site_tags(t) > 1]
     mb = 0
     for (a, ca), (b, cb) in itertools.combinations(ts, 2):
-        if a.bonds(b):
-            if not any(sum(abs(x - y) for x, y in zip(p, q)) == 1 for p in ca for q in cb):
+        if not a.bonds(b):
+            continue
+        direct = any(sum(abs(x - y) for x, y in zip(p, q)) == 1 for p in ca for q in cb)
+        wrap = False
+        if L is not None and cyc is not None:
+            for ax in range(len(L)):
+                if cyc[ax] and L[ax] >= 2:
+                    if any(abs(p[ax] - q[ax]) == L[ax] - 1 and all(p[k] == q[k] for k in range(len(L)) if k != ax) for p in ca for q in cb):
+                        wrap = True
+        if L is None:
+            if not direct:
                 continue
-            if per_index:
-                # periodic lattice: two boundary tensors can be neighbours
-                # twice (directly and around), each bond compressed on its own
-                mb = max([mb] + [int(tn.ind_size(ix)) for ix in a.bonds(b)])
-            else:
-                mb = max(mb, int(qtn.bonds_size(a, b)))
+            both = per_index
+        else:
+            if not direct and not (wrap and wrap_compressed):
+                continue
+            both = direct and wrap
+        if both:
+            mb = max([mb] + [int(tn.ind_size(ix)) for ix in a.bonds(b)])
+        else:
+            mb = max(mb, int(qtn.bonds_size(a, b)))
     return mb, len(ts)
 
 
@@ -452,6 +471,47 @@ def _exc_name(ex):
     return type(ex).__name__
 
 
+def _fp_val(v):
+    """structural fingerprint of a caller-supplied container option"""
+    if isinstance(v, dict):
+        return "{" + ",".join("%r:%s" % (k, _fp_val(x)) for k, x in sorted(v.items(), key=lambda kv: repr(kv[0]))) + "}"
+    if isinstance(v, (list, tuple)):
+        return ("[" if isinstance(v, list) else "(") + ",".join(_fp_val(x) for x in v) + "]"
+    if callable(v):
+        return "<callable>"
+    return repr(v)
+
+
+def opt_fp(kw):
+    """fingerprints of every dict / list the caller hands in (they belong to
+    the caller: a scheme that writes its own defaults into them changes what a
+    LATER call with the same object does)"""
+    return {k: _fp_val(v) for k, v in kw.items() if isinstance(v, (dict, list))}
+
+
+def opt_mutated(kw, fp0):
+    fp1 = opt_fp(kw)
+    return sorted(k for k in fp0 if fp1.get(k) != fp0[k])
+
+
+def check_pure(out, sub, ename, kw, fp0, mode=None):
+    """records a violation when the call rewrote a container option of the
+    caller; returns True when it did"""
+    ch = opt_mutated(kw, fp0)
+    if ch:
+        out.bad(sub + ":pure", "%s rewrote the caller's option container(s) %r in place (before %s, after %s): a later call re-using the object silently inherits these values" % (ename, ch, {k: fp0[k] for k in ch}, {k: opt_fp(kw)[k] for k in ch}), entry=ename, check="option-mutated", option="+".join(ch), mode=mode, root=PURITY_ROOTS.get((ename, "+".join(ch))))
+        return True
+    return False
+
+
+# known-finding triggers of the purity check, keyed by (entry, option)
+PURITY_ROOTS = {
+    ("contract_around_center", "span_opts"): "around-span-opts-mutated",
+    ("contract_around_corner", "span_opts"): "around-span-opts-mutated",
+    ("tn3d.contract_peps_sweep", "peps_opts"): "peps-sweep-nested-opts-mutated",
+}
+
+
 def gram_mode(mode):
     return not (mode in ("mps", "peps", "direct", "local-early", "local-late") or mode.startswith(("zipup", "sdc", "src")))
 
@@ -564,6 +624,10 @@ def root_for_steps(mode, steps, full, dm_closed=None):
         if full and sep == 1:
             if mode in ("l2bp", "l2bp3d") and sum(o > 1 for o in others) >= 1:
                 return "l2bp-closed-network"
+            if mode in ("su", "superorthogonal") and sum(o > 1 for o in others) >= 1:
+                # same family: converged simple-update gauges of a closed loopy
+                # network are (numerically) rank one
+                return "su-closed-network"
     return None
 
 
@@ -587,11 +651,12 @@ OPT2D = {
     "fgreedy": dict(final_contract_opts={"optimize": "greedy"}),
     "early": dict(compress_late=False),  # mode='mps' only
     "absboth": dict(compress_opts={"absorb": "both"}),  # mode='mps' only
+    "dicts": dict(compress_opts={}, final_contract_opts={}),  # caller-owned (empty) option dicts
     "sub": "sub",  # explicit inner starting borders xmin=1 / ymax=Ly-2
     "bounds": "bounds",  # explicit full borders
 }
 OPT_MPS_ONLY = ("early", "absboth")
-OPT_CAP = ("-", "nocanon", "rev", "eq1", "sep0", "unf0", "early", "absboth", "sub")
+OPT_CAP = ("-", "nocanon", "rev", "eq1", "sep0", "unf0", "early", "absboth", "sub", "dicts")
 
 
 def _opt2d(name, L):
@@ -629,7 +694,7 @@ def cell_b2d(cell):
     okw, lo, hi = _opt2d(opt, (Lx, Ly))
     kw = dict(mode=mode, sequence=list(seq) if isinstance(seq, tuple) else seq, cutoff=0.0, layer_tags=lts)
     kw.update(seed_kw(mode))
-    kw.update(okw)
+    kw.update(copy.deepcopy(okw))
     steps = sim_steps((Lx, Ly), cyc_flags(cyc, 2), seq, kw.get("max_separation", 1), kw.get("max_unfinished", 1), lo, hi)
     root = root_for_steps(mode, steps, full=(lo is None))
     if mode == "full-bond" and any(steps[i][0] == steps[k][0] and steps[j][0][0] != steps[i][0][0] for i in range(len(steps)) for j in range(i + 1, len(steps)) for k in range(j + 1, len(steps))):
@@ -643,7 +708,7 @@ def cell_b2d(cell):
     nontrivial = len(steps) > 0
     for chi in chis:
         sub = "chi=%s" % chi
-        k2 = dict(kw)
+        k2 = copy.deepcopy(kw)
         if chi == "E":
             k2["max_bond"] = cap2d(kind, Lx, Ly, cyc, lines=max([1] + [max(Lx, Ly) + 1 - st[1] for st in steps]))
         else:
@@ -651,6 +716,7 @@ def cell_b2d(cell):
             k2["final_contract"] = False
             k2.pop("final_contract_opts", None)
         tn = tn0.copy()
+        fp0 = opt_fp(k2)
         try:
             res = tn.contract_boundary(**k2)
         except Exception as ex:
@@ -660,6 +726,7 @@ def cell_b2d(cell):
             else:
                 out.bad(sub, "contract_boundary%r on %s %dx%d cyc=%s raised %s: %s" % (sorted(k2.items(), key=str), kind, Lx, Ly, cyc, _exc_name(ex), str(ex)[:160]), entry="tn2d.contract_boundary", check="crash", exc=_exc_name(ex), mode=mode, root=root)
             continue
+        check_pure(out, sub, "tn2d.contract_boundary", k2, fp0, mode)
         if chi == "E":
             try:
                 e = rf.err(valof(res))
@@ -673,8 +740,8 @@ def cell_b2d(cell):
             else:
                 out.ok(sub, nontrivial=nontrivial, outcome="b2d:value:steps=%d" % len(steps))
         else:
-            mb, nm = merged_bond_max(res, per_index=bool(cyc))
-            if mb > max(int(chi), layer_bond(kind) ** (2 if cyc else 1)):
+            mb, nm = merged_bond_max(res, L=(Lx, Ly), cyc=cyc_flags(cyc, 2), wrap_compressed=mode not in ("mps", "full-bond"))
+            if mb > max(int(chi), layer_bond(kind)):
                 out.bad(sub, "contract_boundary(mode=%r, sequence=%r, max_bond=%s, %s, final_contract=False) on %s %dx%d cyc=%s hands over a boundary bond of size %d" % (mode, seq, chi, okw, kind, Lx, Ly, cyc, mb), entry="tn2d.contract_boundary", check="cap", mode=mode, root=root)
             else:
                 out.ok(sub, nontrivial=nm > 0, outcome="b2d:cap:%s" % ("bond=chi" if mb == int(chi) else "bond<chi" if nm else "no-boundary"))
@@ -693,6 +760,7 @@ OPTFROM = {
     "early": dict(compress_late=False),
     "absboth": dict(compress_opts={"absorb": "both"}),
     "lazy": dict(lazy=True),  # projector2d only
+    "dicts": dict(compress_opts={}),
 }
 
 
@@ -716,13 +784,15 @@ def cell_from2d(cell):
     entry = "tn2d.contract_boundary_from" + ("" if how == "gen" else "_" + fw)
     kw = dict(mode=mode, cutoff=0.0, layer_tags=lts)
     kw.update(seed_kw(mode))
-    kw.update(okw)
+    kw.update(copy.deepcopy(okw))
     if mode == "full-bond":
         kw.pop("layer_tags")
     for chi in chis:
         sub = "chi=%s" % chi
-        k2 = dict(kw, max_bond=cap2d(kind, Lx, Ly, cyc, lines=sw[1] - sw[0] + 1) if chi == "E" else int(chi))
+        k2 = copy.deepcopy(kw)
+        k2["max_bond"] = cap2d(kind, Lx, Ly, cyc, lines=sw[1] - sw[0] + 1) if chi == "E" else int(chi)
         tn = tn0.copy()
+        fp0 = opt_fp(k2)
         try:
             if how == "gen":
                 res = tn.contract_boundary_from(xrange=xr, yrange=yr, from_which=fw, **k2)
@@ -738,6 +808,7 @@ def cell_from2d(cell):
                 out.bad(sub, "%s(xrange=%r, yrange=%r, %r) on %s %dx%d cyc=%s raised %s: %s" % (entry, xr, yr, sorted(k2.items(), key=str), kind, Lx, Ly, cyc, _exc_name(ex), str(ex)[:160]), entry=entry, check="crash", exc=_exc_name(ex), mode=mode, root=root)
             continue
         qtn = _qtn()
+        check_pure(out, sub, entry, k2, fp0, mode)
         if not isinstance(res, qtn.TensorNetwork):
             out.bad(sub, "%s returned %s instead of the partially contracted network" % (entry, type(res).__name__), entry=entry, check="type", mode=mode, root=root)
             continue
@@ -769,9 +840,15 @@ def cell_from2d(cell):
                 out.ok(sub, nontrivial=False, outcome="from2d:cap:lazy-skipped")
                 continue
             mb, npairs = 0, 0
-            for j in range(ot[0], ot[1]):
+            pairs = [(j, j + 1) for j in range(ot[0], ot[1])]
+            Lo = L[1 - ax]
+            if cyc_flags(cyc, 2)[1 - ax] and ot == (0, Lo - 1) and Lo >= 3 and mode not in ("mps", "full-bond"):
+                # the line is a ring: every mode but 'mps' / 'full-bond'
+                # compresses the bond that wraps around as well
+                pairs.append((Lo - 1, 0))
+            for j, jn in pairs:
                 ca = (line, j) if ax == 0 else (j, line)
-                cb = (line, j + 1) if ax == 0 else (j + 1, line)
+                cb = (line, jn) if ax == 0 else (jn, line)
                 b = pair_bond(res, res.site_tag(*ca), res.site_tag(*cb))
                 if b is not None:
                     npairs += 1
@@ -801,11 +878,13 @@ def cell_ar2d(cell):
         if entry == "contract_boundary":
             kw.update(mode=mode, layer_tags=lts)
             kw.update(seed_kw(mode))
+        fp0 = opt_fp(kw)
         try:
             res = getattr(tn0.copy(), entry)(**kw)
         except Exception as ex:
             out.bad(sub, "%s(%r) on %s %dx%d raised %s: %s" % (ename, sorted(kw.items(), key=str), kind, Lx, Ly, _exc_name(ex), str(ex)[:160]), entry=ename, check="crash", exc=_exc_name(ex), mode=mode)
             continue
+        check_pure(out, sub, ename, kw, fp0, mode)
         if not isinstance(res, qtn.TensorNetwork):
             out.bad(sub, "%s(around=%r) returned %s, not a network" % (ename, around, type(res).__name__), entry=ename, check="type", mode=mode)
             continue
@@ -848,6 +927,7 @@ OPTENV = {
     "eq1": dict(equalize_norms=1.0),
     "eqT": dict(equalize_norms=True),
     "dense+eq1": dict(dense=True, equalize_norms=1.0),
+    "dicts": dict(compress_opts={}),
 }
 
 
@@ -914,7 +994,7 @@ def cell_env2d(cell):
     okw = dict(OPTENV[opt])
     kw = dict(max_bond=cap2d(kind, Lx, Ly, cyc, lines=max(Lx, Ly) - 1), cutoff=0.0, mode=mode, layer_tags=lts)
     kw.update(seed_kw(mode))
-    kw.update(okw)
+    kw.update(copy.deepcopy(okw))
     dense = bool(okw.get("dense"))
     root = None
     if entry in ("x", "y"):
@@ -967,6 +1047,7 @@ def cell_env2d(cell):
             root = "via1d-single-site"
     elif root is None and not native_mode(mode) and (other == 1 or min(L) == 1):
         root = "via1d-single-site"
+    fp0 = opt_fp(kw)
     try:
         envs = call(tn0.copy())
     except Exception as ex:
@@ -976,6 +1057,7 @@ def cell_env2d(cell):
         else:
             out.bad("call", "%s(%r%s) on %s %dx%d cyc=%s raised %s: %s" % (ename, sorted(kw.items(), key=str), (", args=%r" % (args,)) if args else "", kind, Lx, Ly, cyc, _exc_name(ex), str(ex)[:160]), entry=ename, check="crash", exc=_exc_name(ex), mode=mode, root=root)
         return out
+    check_pure(out, "call", ename, kw, fp0, mode)
     if set(envs) != want:
         out.bad("keys", "%s on %s %dx%d stored keys %r, expected %r" % (ename, kind, Lx, Ly, sorted(envs, key=str), sorted(want, key=str)), entry=ename, check="keys", mode=mode, root=root)
         return out
@@ -1042,6 +1124,8 @@ OPTRG = {
     "seq:zyx": dict(sequence=("z", "y", "x")),
     "seq:z": dict(sequence=("z",)),
     "seq:zrev": dict(sequence=("zmax", "ymax", "xmax", "zmin", "ymin", "xmin")),
+    "dicts": dict(compress_opts={"cutoff_mode": "rel"}, contract_opts={}, reduce_opts={}, final_contract_opts={}),
+    "dicts+canon": dict(canonize=True, canonize_opts={}, compress_opts={}),
 }
 
 
@@ -1074,10 +1158,13 @@ def cell_rg(cell):
     for chi in chis:
         sub = "chi=%s" % chi
         kw = dict(max_bond=CAPRG if chi == "E" else int(chi), cutoff=0.0)
-        kw.update(okw)
+        kw.update(copy.deepcopy(okw))
+        if entry.startswith("cg"):
+            kw.pop("final_contract_opts", None)  # not an option of coarse_grain_hotrg
         if chi != "E" and not entry.startswith("cg"):
             kw["final_contract"] = False
         tn = tn0.copy()
+        fp0 = opt_fp(kw)
         try:
             if entry.startswith("cg"):
                 res = tn.coarse_grain_hotrg(entry[3:], **kw)
@@ -1086,6 +1173,7 @@ def cell_rg(cell):
         except Exception as ex:
             out.bad(sub, "%s(%r) on %s %r cyc=%s raised %s: %s" % (ename, sorted(kw.items(), key=str), kind, L, cyc, _exc_name(ex), str(ex)[:160]), entry=ename, check="crash", exc=_exc_name(ex), mode=mode, root=root)
             continue
+        check_pure(out, sub, ename, kw, fp0, mode)
         lazy = bool(okw.get("lazy"))
         if entry.startswith("cg"):
             if not isinstance(res, qtn.TensorNetwork):
@@ -1115,8 +1203,11 @@ def cell_rg(cell):
             if entry in ("contract_ctmrg", "contract_mps_sweep"):
                 # bonds ACROSS two boundaries that have met are original
                 # lattice bonds (twice on a periodic lattice): never compressed
-                mb, nm = merged_bond_max(res, per_index=bool(cyc))
-                lim = max(int(chi), D ** (2 if cyc else 1))
+                if nd == 2:
+                    mb, nm = merged_bond_max(res, L=tuple(L), cyc=cyc_flags(cyc, 2), wrap_compressed=mode not in ("mps", "full-bond"))
+                else:
+                    mb, nm = merged_bond_max(res, L=tuple(L), cyc=cyc_flags(cyc, 3), wrap_compressed=True)
+                lim = max(int(chi), D)
             else:
                 # HOTRG compresses the bonds ACROSS the paired direction; the
                 # bonds along it keep their original size D
@@ -1149,6 +1240,7 @@ OPT3D = {
     "nointer": dict(canonize_interleave=False),  # mode='peps' only
     "early": dict(compress_late=False),  # mode='peps' only
     "lazy": dict(lazy=True),  # projector3d only
+    "dicts": dict(compress_opts={}, final_contract_opts={}),
 }
 
 
@@ -1158,17 +1250,18 @@ def cell_b3d(cell):
     tn0, rf = build3d(shape, cyc)
     okw = dict(OPT3D[opt])
     kw = dict(mode=mode, sequence=list(seq) if isinstance(seq, tuple) else seq, cutoff=0.0)
-    kw.update(okw)
+    kw.update(copy.deepcopy(okw))
     steps = sim_steps(tuple(shape), cyc_flags(cyc, 3), seq, kw.get("max_separation", 1), kw.get("max_unfinished", 1))
     root = root_for_steps(mode, steps, full=True)
     for chi in chis:
         sub = "chi=%s" % chi
-        k2 = dict(kw)
+        k2 = copy.deepcopy(kw)
         if chi == "E":
             k2["max_bond"] = CAP3D
         else:
             k2["max_bond"] = int(chi)
             k2["final_contract"] = False
+        fp0 = opt_fp(k2)
         try:
             res = tn0.copy().contract_boundary(**k2)
         except Exception as ex:
@@ -1177,6 +1270,7 @@ def cell_b3d(cell):
             else:
                 out.bad(sub, "tn3d.contract_boundary(%r) on %r cyc=%s raised %s: %s" % (sorted(k2.items(), key=str), shape, cyc, _exc_name(ex), str(ex)[:160]), entry="tn3d.contract_boundary", check="crash", exc=_exc_name(ex), mode=mode, root=root)
             continue
+        check_pure(out, sub, "tn3d.contract_boundary", k2, fp0, mode)
         if chi == "E":
             try:
                 e = rf.err(valof(res))
@@ -1221,7 +1315,7 @@ def cell_from3d(cell):
     for chi in chis:
         sub = "chi=%s" % chi
         kw = dict(mode=mode, cutoff=0.0, max_bond=CAP3D if chi == "E" else int(chi))
-        kw.update(okw)
+        kw.update(copy.deepcopy(okw))
         tn = tn0.copy()
         try:
             if how == "plain":
@@ -1273,6 +1367,7 @@ OPTSW = {
     "iters": dict(max_iterations=50),
     "power": dict(power=0.5),
     "eq1": dict(equalize_norms=1.0),
+    "dicts": "dicts",  # caller-owned peps_opts / mps_opts (with a nested dict)
 }
 
 
@@ -1280,20 +1375,26 @@ def cell_sw3d(cell):
     _, shape, entry, fw, opt = cell
     out = Out(cell)
     tn0, rf = build3d(shape, 0)
-    okw = dict(OPTSW[opt])
+    okw = OPTSW[opt] if OPTSW[opt] == "dicts" else dict(OPTSW[opt])
     ename = "tn3d." + entry
     if entry == "contract_peps_sweep":
         kw = dict(max_bond=CAP3D, cutoff=0.0, from_which=fw)
     else:
         # compress_all_simple has its own default cutoff: "no cutoff" must be explicit
         kw = dict(max_bond=CAP3D, peps_opts=dict(cutoff=0.0), mps_opts=dict(cutoff=0.0))
-    kw.update(okw)
+    if okw == "dicts":
+        okw = {}
+        kw["peps_opts"] = dict(kw.get("peps_opts", {}), compress_opts={}) if entry == "contract_peps_sweep" else dict(kw["peps_opts"])
+        kw["mps_opts"] = dict(kw.get("mps_opts", {}))
+    kw.update(copy.deepcopy(okw))
+    fp0 = opt_fp(kw)
     try:
         res = getattr(tn0.copy(), entry)(**kw)
         e = rf.err(valof(res))
     except Exception as ex:
         out.bad("E", "%s(%r) on %r raised %s: %s" % (ename, sorted(kw.items(), key=str), shape, _exc_name(ex), str(ex)[:160]), entry=ename, check="crash", exc=_exc_name(ex), mode=okw.get("mode"))
         return out
+    check_pure(out, "E", ename, kw, fp0, okw.get("mode"))
     out.maxerr = max(out.maxerr, e if np.isfinite(e) else 0.0)
     if not e <= RTOL_GRAM:
         out.bad("E", "untruncated %s(from_which=%r, %s) on %r: value off by %.3e" % (ename, fw, okw, shape, e), entry=ename, check="value", mode=okw.get("mode"))
@@ -1366,6 +1467,8 @@ OPTCC = {
     "late+basic": dict(compress_late=True, compress_mode="basic"),
     "late+gauges": dict(compress_late=True, gauges=True),
     "early+tgd2": dict(compress_late=False, tree_gauge_distance=2),
+    "dicts": dict(compress_opts={}, canonize_opts={}, canonize_after_opts={}),
+    "spandict": dict(span_opts={}, canonize_opts={}),  # contract_around* only
 }
 
 
@@ -1381,12 +1484,15 @@ def _cb_recorder(seen):
     return cb
 
 
-def _ag_eval(out, sub, ename, call, rf, chi, seen, tol, desc, mode=None, root=None, value=True):
+def _ag_eval(out, sub, ename, call, rf, chi, seen, tol, desc, mode=None, root=None, value=True, kw=None):
+    fp0 = opt_fp(kw) if kw is not None else None
     try:
         res = call()
     except Exception as ex:
         out.bad(sub, "%s %s raised %s: %s" % (ename, desc, _exc_name(ex), str(ex)[:200]), entry=ename, check="crash", exc=_exc_name(ex), mode=mode, root=root)
         return None
+    if kw is not None:
+        check_pure(out, sub, ename, kw, fp0, mode)
     if value:
         try:
             e = rf.err(valof(res, rf.out))
@@ -1413,9 +1519,9 @@ def cell_cc(cell):
         c = BIG if chi == "E" else int(chi)
         seen = []
         kw = dict(optimize=[tuple(p) for p in path], max_bond=c, cutoff=0.0, output_inds=rf.out, callback_post_compress=_cb_recorder(seen))
-        kw.update(okw)
+        kw.update(copy.deepcopy(okw))
         desc = "(path=%r, max_bond=%s, %s) on graph %r phys=%s" % (path, chi, okw, edges, phys)
-        res = _ag_eval(out, sub, "contract_compressed", lambda: tn0.copy().contract_compressed(**kw), rf, c, seen, RTOL_GRAM if opt == "fullbond" else RTOL, desc, mode=okw.get("compress_mode"), value=(chi == "E"))
+        res = _ag_eval(out, sub, "contract_compressed", lambda: tn0.copy().contract_compressed(**kw), rf, c, seen, RTOL_GRAM if opt == "fullbond" else RTOL, desc, mode=okw.get("compress_mode"), value=(chi == "E"), kw=kw)
         if res is not None:
             out.ok(sub, nontrivial=(chi == "E") or bool(seen), outcome="cc:%s" % ("value" if chi == "E" else "cap:compressions=%d" % min(len(seen), 3)))
     return out
@@ -1431,13 +1537,13 @@ def cell_ar(cell):
         c = BIG if chi == "E" else int(chi)
         seen = []
         kw = dict(max_bond=c, cutoff=0.0, callback_post_compress=_cb_recorder(seen))
-        kw.update(okw)
+        kw.update(copy.deepcopy(okw))
         if entry == "contract_around":
             call = lambda: tn0.copy().contract_around("I%d" % site, **kw)
         else:
             call = lambda: getattr(tn0.copy(), entry)(**kw)
         desc = "(%smax_bond=%s, %s) on graph %r phys=%s" % (("'I%d', " % site) if site is not None else "", chi, okw, edges, phys)
-        res = _ag_eval(out, sub, entry, call, rf, c, seen, RTOL, desc, value=(chi == "E"))
+        res = _ag_eval(out, sub, entry, call, rf, c, seen, RTOL, desc, value=(chi == "E"), kw=kw)
         if res is not None:
             out.ok(sub, nontrivial=(chi == "E") or bool(seen), outcome="ar:%s:%s" % (entry, "value" if chi == "E" else "cap"))
     return out
@@ -1479,10 +1585,10 @@ def cell_call(cell):
         sub = "chi=%s" % chi
         c = BIG if chi == "E" else int(chi)
         kw = dict(max_bond=c, cutoff=0.0)
-        kw.update(okw)
+        kw.update(copy.deepcopy(okw))
         desc = "(max_bond=%s, %s) on graph %r phys=%s (bonds of size %d)" % (chi, okw, edges, phys, D)
         exact = c >= D
-        res = _ag_eval(out, sub, entry, lambda: getattr(tn0.copy(), entry)(**kw), rf, c, None, RTOL_GRAM if entry == "compress_all_simple" else RTOL, desc, value=exact)
+        res = _ag_eval(out, sub, entry, lambda: getattr(tn0.copy(), entry)(**kw), rf, c, None, RTOL_GRAM if entry == "compress_all_simple" else RTOL, desc, value=exact, kw=kw)
         if res is None:
             continue
         mb = total_bond_max(res)
@@ -1501,6 +1607,8 @@ OPTTNAG = {
     "superorthogonal": {"-": {}, "nocanon": dict(canonize=False), "eq1": dict(equalize_norms=1.0)},
     "l2bp": {"-": {}, "nocanon": dict(canonize=False), "parallel": dict(update="parallel"), "eq1": dict(equalize_norms=1.0)},
 }
+for _m, _o in OPTTNAG.items():
+    _o["dicts"] = dict(compress_opts={}, **(dict(contract_opts={}, reduce_opts={}, canonize_opts={}) if _m == "projector" else {}))
 NLAY = {"vec": 1, "vec-closed": 2, "op-vec": 2, "op-op": 3}
 
 
@@ -1551,10 +1659,10 @@ def cell_tnag(cell):
         sub = "chi=%s" % chi
         c = BIG if chi == "E" else (Dex if chi == "D" else int(chi))
         kw = dict(max_bond=c, cutoff=0.0, method=method, site_tags=st)
-        kw.update(okw)
+        kw.update(copy.deepcopy(okw))
         exact = c >= Dex
         desc = "(method=%r, max_bond=%s, %s) on %s-layer network %s over graph %r (exact bond %d)" % (method, c, okw, NLAY[layers], layers, edges, Dex)
-        res = _ag_eval(out, sub, "tensor_network_ag_compress", lambda: tensor_network_ag_compress(tn0.copy(), **kw), rf, c, None, tol_for(method) if method != "su" and method != "superorthogonal" else RTOL_GRAM, desc, mode=method, root=root, value=exact)
+        res = _ag_eval(out, sub, "tensor_network_ag_compress", lambda: tensor_network_ag_compress(tn0.copy(), **kw), rf, c, None, tol_for(method) if method != "su" and method != "superorthogonal" else RTOL_GRAM, desc, mode=method, root=root, value=exact, kw=kw)
         if res is None:
             continue
         if not okw.get("lazy"):
@@ -1604,10 +1712,10 @@ def cell_cb(cell):
         sub = "chi=%s" % chi
         c = BIG if chi == "E" else int(chi)
         kw = dict(max_bond=c, cutoff=0.0)
-        kw.update(okw)
+        kw.update(copy.deepcopy(okw))
         tn = tn0.copy()
         desc = "('I%d', 'I%d', max_bond=%s, %s) on graph %r phys=%s (bonds of size %d)" % (a, b, chi, okw, edges, phys, D)
-        res = _ag_eval(out, sub, "compress_between", lambda: (tn.compress_between("I%d" % a, "I%d" % b, **kw), tn)[1], rf, c, None, RTOL_GRAM if "fullbond" in opt else RTOL, desc, mode=okw.get("mode"), value=(c >= D))
+        res = _ag_eval(out, sub, "compress_between", lambda: (tn.compress_between("I%d" % a, "I%d" % b, **kw), tn)[1], rf, c, None, RTOL_GRAM if "fullbond" in opt else RTOL, desc, mode=okw.get("mode"), value=(c >= D), kw=kw)
         if res is None:
             continue
         got = pair_bond(res, "I%d" % a, "I%d" % b)
@@ -1617,6 +1725,235 @@ def cell_cb(cell):
         else:
             out.ok(sub, outcome="cb:%s" % ("value" if c >= D else "cap"))
     return out
+
+
+# --------------------------------------------------------------------------- #
+#     contract_compressed with an optimizer object that carries its own chi   #
+# --------------------------------------------------------------------------- #
+
+
+def cell_cct(cell):
+    """``optimize`` is a cotengra ContractionTreeCompressed whose default
+    objective was optimised for ``treechi`` / ``treelate``; ``max_bond`` and
+    ``compress_late`` are inherited from it only when NOT specified (documented):
+    an explicit cap must win in both directions."""
+    _, edges, phys, path, treechi, treelate, maxbond, late = cell
+    out = Out(cell)
+    import cotengra as ctg
+    from cotengra.scoring import CompressedPeakObjective
+
+    tn0, rf = buildag(edges, phys)
+    D = 3
+    if path == "preset":
+        opt = "greedy-compressed"
+    else:
+        inputs, output, size_dict = tn0.get_inputs_output_size_dict(output_inds=rf.out)
+        opt = ctg.ContractionTreeCompressed.from_path(inputs, output, size_dict, path=[tuple(p) for p in path])
+        opt.set_default_objective(CompressedPeakObjective(chi=treechi, compress_late=treelate))
+    if maxbond == "E":
+        eff, mb = BIG, BIG
+    elif maxbond == "auto":
+        mb = "auto"
+        eff = int(treechi) if (treechi != "auto" and path != "preset") else D * D
+    else:
+        eff, mb = int(maxbond), int(maxbond)
+    seen = []
+    kw = dict(optimize=opt, max_bond=mb, cutoff=0.0, output_inds=rf.out, callback_post_compress=_cb_recorder(seen))
+    if late is not None:
+        kw["compress_late"] = late
+    desc = "(optimize=<tree of path %r optimised for chi=%r, compress_late=%r>, max_bond=%r, compress_late=%r) on graph %r phys=%s" % (path, treechi, treelate, maxbond, late, edges, phys)
+    root = None
+    res = _ag_eval(out, "run", "contract_compressed", lambda: tn0.copy().contract_compressed(**kw), rf, eff, seen, RTOL, desc, mode="tree-chi", root=root, value=(maxbond == "E"))
+    if res is not None:
+        out.ok("run", nontrivial=(maxbond == "E") or bool(seen), outcome="cct:%s" % ("value" if maxbond == "E" else "cap"))
+    return out
+
+
+def cells_cct(tier):
+    q = tier == "quick"
+    cells = []
+    G = [g for g in graphs(4) if nnodes(g) == 4] + ([] if q else [g for g in graphs(5) if nnodes(g) == 5 and len(g) in (5, 6, 10)][:4])
+    for phys in (None, 2):
+        for g in G:
+            paths = all_paths(nnodes(g))
+            if nnodes(g) == 5:
+                paths = paths[::9]
+            elif q:
+                paths = paths[::3]
+            for path in paths:
+                for treechi in ("auto", 2, 8):
+                    for treelate in (False, True):
+                        for maxbond in ("E", 2, "auto"):
+                            for late in (None,) if (q or maxbond == "auto") else (None, True, False):
+                                cells.append(("cct", g, phys, path, treechi, treelate, maxbond, late))
+            for maxbond in ("E", 2):
+                cells.append(("cct", g, phys, "preset", "auto", False, maxbond, None))
+    return cells
+
+
+# --------------------------------------------------------------------------- #
+#       two-call histories that re-use the caller's option containers         #
+# --------------------------------------------------------------------------- #
+
+HIST = {
+    # name: (structure, method, fixed kwargs, names of the shared dict options, evaluator)
+    "tn2d.contract_hotrg": ("2d:flat:4:4", "contract_hotrg", {}, ("compress_opts", "contract_opts", "reduce_opts", "final_contract_opts"), "hotrg"),
+    "tn2d.contract_hotrg:canon": ("2d:flat:4:4", "contract_hotrg", {"canonize": True}, ("compress_opts", "canonize_opts"), "hotrg"),
+    "tn2d.coarse_grain_hotrg": ("2d:flat:4:4", "coarse_grain_hotrg", {"direction": "x"}, ("compress_opts", "contract_opts", "reduce_opts"), "hotrg"),
+    "tn2d.contract_ctmrg": ("2d:flat:4:4", "contract_ctmrg", {}, ("compress_opts", "contract_opts", "reduce_opts", "final_contract_opts"), "merged"),
+    "tn2d.contract_boundary:mps": ("2d:flat:4:4", "contract_boundary", {"mode": "mps"}, ("compress_opts", "canonize_opts", "final_contract_opts"), "merged"),
+    "tn2d.contract_boundary:projector2d": ("2d:flat:4:4", "contract_boundary", {"mode": "projector2d"}, ("compress_opts", "contract_opts", "reduce_opts", "final_contract_opts"), "merged"),
+    "tn2d.contract_boundary:zipup": ("2d:flat:4:4", "contract_boundary", {"mode": "zipup"}, ("final_contract_opts",), "merged"),
+    "tn2d.contract_boundary:full-bond": ("2d:flat:4:4", "contract_boundary", {"mode": "full-bond"}, ("contract_boundary_opts", "final_contract_opts"), "merged"),
+    "tn2d.compute_x_environments": ("2d:flat:4:3", "compute_x_environments", {}, ("compress_opts",), "envs"),
+    "tn2d.compute_plaquette_environments": ("2d:flat:3:3", "compute_plaquette_environments", {}, ("compress_opts",), "plq"),
+    "tn3d.contract_hotrg": ("3d:2:2:3", "contract_hotrg", {}, ("compress_opts", "contract_opts", "reduce_opts", "final_contract_opts"), "hotrg"),
+    "tn3d.coarse_grain_hotrg": ("3d:2:2:3", "coarse_grain_hotrg", {"direction": "z"}, ("compress_opts", "contract_opts", "reduce_opts"), "hotrg"),
+    "tn3d.contract_ctmrg": ("3d:2:2:3", "contract_ctmrg", {}, ("compress_opts", "contract_opts", "reduce_opts", "final_contract_opts"), "merged"),
+    "tn3d.contract_boundary:peps": ("3d:3:2:2", "contract_boundary", {"mode": "peps"}, ("compress_opts", "canonize_opts", "final_contract_opts"), "merged"),
+    "tn3d.contract_boundary:projector3d": ("3d:3:2:2", "contract_boundary", {"mode": "projector3d"}, ("compress_opts", "final_contract_opts"), "merged"),
+    "tn3d.contract_peps_sweep": ("3d:2:2:3", "contract_peps_sweep", {}, ("peps_opts", "mps_opts"), "scalar"),
+    "tn3d.contract_simple_sweep": ("3d:2:2:3", "contract_simple_sweep", {}, ("peps_opts", "mps_opts"), "scalar0"),
+    "contract_compressed": ("ag", "contract_compressed", {}, ("compress_opts", "canonize_opts", "canonize_after_opts"), "callback"),
+    "contract_around": ("ag", "contract_around", {}, ("span_opts", "canonize_opts", "compress_opts"), "callback"),
+    "contract_around_center": ("ag", "contract_around_center", {}, ("span_opts", "canonize_opts", "compress_opts"), "callback"),
+    "contract_around_corner": ("ag", "contract_around_corner", {}, ("span_opts", "canonize_opts", "compress_opts"), "callback"),
+    "tnag:projector": ("lay", "projector", {}, ("compress_opts", "contract_opts", "reduce_opts", "canonize_opts"), "tnag"),
+    "tnag:local-early": ("lay", "local-early", {}, ("compress_opts",), "tnag"),
+    "tnag:local-late": ("lay", "local-late", {}, ("compress_opts",), "tnag"),
+    "tnag:su": ("lay", "su", {}, ("compress_opts",), "tnag"),
+    "tnag:l2bp": ("lay", "l2bp", {}, ("compress_opts",), "tnag"),
+}
+HIST_AG = ((0, 1), (0, 2), (0, 3), (1, 2), (2, 3))
+HIST_PATH = ((0, 1), (0, 1), (0, 1))
+
+
+def cell_hist(cell):
+    """call the scheme twice with THE SAME option containers and a different
+    cap: small then exact (the second result must be exact) or exact then
+    small (the second boundary must obey the small cap).  After each call the
+    containers must be what the caller put in."""
+    _, name, dictkind, order = cell
+    out = Out(cell)
+    qtn = _qtn()
+    struct, meth, fixed, dnames, ev = HIST[name]
+    if struct.startswith("2d"):
+        _, kind, Lx, Ly = struct.split(":")
+        tn0, rf = build2d(kind, int(Lx), int(Ly), 0)
+        capE, D = cap2d(kind, int(Lx), int(Ly), 0), layer_bond(kind)
+        if "hotrg" in meth or "ctmrg" in meth:
+            capE = CAPRG
+    elif struct.startswith("3d"):
+        tn0, rf = build3d(tuple(int(x) for x in struct.split(":")[1:]), 0)
+        capE, D = CAP3D, 2
+    elif struct == "ag":
+        tn0, rf = buildag(HIST_AG, None)
+        capE, D = BIG, 3
+    else:
+        tn0, rf = build_layers("op-vec", HIST_AG)
+        capE, D = BIG, 4
+    if dictkind == "empty":
+        shared = {k: {} for k in dnames}
+    else:
+        # harmless content: spelled-out defaults / options that are inert at cutoff=0
+        shared = {k: {} for k in dnames}
+        if "compress_opts" in shared and ev in ("hotrg",) or name in ("tn2d.contract_ctmrg", "tn3d.contract_ctmrg", "tnag:projector", "tn2d.contract_boundary:projector2d"):
+            shared["compress_opts"] = {"cutoff_mode": "rel"}
+        if "peps_opts" in shared:
+            shared["peps_opts"] = {"cutoff": 0.0, "compress_opts": {}} if meth == "contract_peps_sweep" else {"cutoff": 0.0}
+            shared["mps_opts"] = {"cutoff": 0.0}
+    if name == "tn2d.contract_boundary:full-bond":
+        shared.pop("contract_boundary_opts")
+        shared["contract_boundary_opts"] = {}
+    if meth == "contract_simple_sweep":
+        for k in ("peps_opts", "mps_opts"):
+            shared[k].setdefault("cutoff", 0.0)
+    if meth == "contract_peps_sweep" and dictkind == "empty":
+        pass
+    chis = (2, "E") if order == "small-first" else ("E", 2)
+    if ev in ("scalar", "scalar0", "envs", "plq") and order != "small-first":
+        chis = ("E", "E")
+    for n, chi in enumerate(chis):
+        sub = "call%d:chi=%s" % (n + 1, chi)
+        c = capE if chi == "E" else int(chi)
+        seen = []
+        kw = dict(fixed)
+        kw.update(shared)  # the SAME objects in both calls
+        kw["max_bond"] = c
+        if meth not in ("contract_simple_sweep",):
+            kw["cutoff"] = 0.0
+        tn = tn0.copy()
+        ename = name.split(":")[0] if not name.startswith("tnag") else "tensor_network_ag_compress"
+        if ev == "callback":
+            kw["callback_post_compress"] = _cb_recorder(seen)
+            if meth == "contract_compressed":
+                kw["optimize"] = [tuple(p) for p in HIST_PATH]
+            if meth == "contract_around":
+                kw["tags"] = "I1"
+        if ev == "tnag":
+            from quimb.tensor.tnag.compress import tensor_network_ag_compress
+
+            kw.update(method=meth, site_tags=["I%d" % i for i in range(nnodes(HIST_AG))])
+            call = lambda: tensor_network_ag_compress(tn, **kw)
+        else:
+            if ev in ("hotrg", "merged") and chi != "E" and meth not in ("coarse_grain_hotrg",):
+                kw["final_contract"] = False
+            call = lambda: getattr(tn, meth)(**kw)
+        fp0 = opt_fp(kw)
+        try:
+            res = call()
+        except Exception as ex:
+            out.bad(sub, "%s(%r) [call %d of a history sharing the option containers %r] raised %s: %s" % (ename, sorted((k, v) for k, v in kw.items() if not callable(v)), n + 1, dnames, _exc_name(ex), str(ex)[:160]), entry=ename, check="crash", exc=_exc_name(ex), mode=fixed.get("mode"), hist=order)
+            break
+        mutated = check_pure(out, sub, ename, kw, fp0, fixed.get("mode"))
+        what = "%s, call %d of 2 sharing the caller's %r (%s), max_bond=%s" % (ename, n + 1, dnames, dictkind, chi)
+        bad = None
+        if chi == "E":
+            try:
+                if ev == "envs":
+                    lo, hi = res["xmin", 1], res["xmax", 1]
+                    ts = denote(lo)[0] + denote(hi)[0] + denote(tn0.select(tn0.x_tag(1)))[0]
+                    e = rf.err(ref_contract(ts) * 10.0 ** (float(lo.exponent) + float(hi.exponent) + float(tn0.exponent)))
+                elif ev == "plq":
+                    E = res[(1, 1), (2, 2)]
+                    ts = denote(E)[0] + denote(tn0.select_any([tn0.site_tag(i, j) for i in (1, 2) for j in (1, 2)]))[0]
+                    e = rf.err(ref_contract(ts) * 10.0 ** (float(E.exponent) + float(tn0.exponent)))
+                else:
+                    e = rf.err(valof(res, rf.out))
+            except Exception as ex:
+                out.bad(sub, "%s: result cannot be denoted (%s: %s)" % (what, _exc_name(ex), str(ex)[:120]), entry=ename, check="type", mode=fixed.get("mode"), hist=order)
+                break
+            out.maxerr = max(out.maxerr, e if np.isfinite(e) else 0.0)
+            if not e <= RTOL_GRAM:
+                bad = ("value", "%s: untruncated result off by %.3e" % (what, e))
+        else:
+            if ev == "callback":
+                m = max(seen or [0])
+                lim = c
+            elif ev == "hotrg":
+                m, lim = total_bond_max(res), max(c, D)
+            elif ev == "merged":
+                m, lim = merged_bond_max(res)[0], max(c, D)
+            elif ev == "tnag":
+                m, lim = total_bond_max(res), c
+            else:
+                m, lim = 0, c
+            if m > lim:
+                bad = ("cap", "%s: a handed-over / just-compressed bond has size %d" % (what, m))
+        if bad:
+            out.bad(sub, bad[1], entry=ename, check=bad[0], mode=fixed.get("mode"), hist=order, root=("second-call" if n == 1 else None))
+        else:
+            out.ok(sub, outcome="hist:%s:%s" % (ev, "value" if chi == "E" else "cap"))
+    return out
+
+
+def cells_hist(tier):
+    cells = []
+    for name in HIST:
+        for dictkind in ("empty", "content"):
+            for order in ("small-first", "big-first"):
+                cells.append(("hist", name, dictkind, order))
+    return cells
 
 
 # --------------------------------------------------------------------------- #
@@ -1636,6 +1973,8 @@ TABLES = {
     "cc": cell_cc,
     "ar": cell_ar,
     "cb": cell_cb,
+    "cct": cell_cct,
+    "hist": cell_hist,
     "call": cell_call,
     "tnag": cell_tnag,
 }
@@ -1719,7 +2058,7 @@ def cells_b2d(tier):
             for mode in M:
                 names = list(OPT2D)
                 if q and (base == "norm" or kind == "flatexp"):
-                    names = ["-", "nocanon", "eq1", "strip", "sep0", "inplace"]
+                    names = ["-", "nocanon", "eq1", "strip", "sep0", "inplace", "dicts"]
                 for opt in _opts_for2d(mode, names):
                     if opt == "-" and kind == "flat" and (Lx, Ly) in sizes:
                         continue  # already in A1
@@ -1760,12 +2099,26 @@ def cells_from2d(tier):
                         if sw[0] == sw[1]:
                             continue
                         cells.append(("from2d", kind, Lx, Ly, cyc, mode, fw, xr, yr, "-", "wrap", ch))
+    # lattices periodic along the swept line (the line is a ring): every sweep
+    # range, full other range
+    for kind, Lx, Ly, cyc in ([("flat", 3, 3, 3)] if q else [("flat", 3, 3, 3), ("flat", 4, 3, 1), ("flat", 3, 4, 2), ("flat", 4, 4, 3), ("flat3", 3, 3, 3)]):
+        for mode in M:
+            if q and slow_mode(mode):
+                continue
+            ch = ("E", 2) if (slow_mode(mode) or q) else ("E", 2, 3)
+            for fw in DIRS2:
+                ax = "xy".index(fw[0])
+                for sw in _ranges((Lx, Ly)[ax]):
+                    if sw[0] == sw[1]:
+                        continue
+                    xr, yr = (sw, None) if ax == 0 else (None, sw)
+                    cells.append(("from2d", kind, Lx, Ly, cyc, mode, fw, xr, yr, "-", "wrap_", ch))
     # the other spellings + option deviations + layered, on full / None ranges
     lat2 = [("flat", 4, 3, 0), ("norm:KB", 3, 3, 0)] if q else [("flat", 4, 4, 0), ("flatexp", 4, 3, 0), ("norm", 3, 3, 0), ("norm:KB", 3, 3, 0), ("norm:BK", 4, 3, 0), ("norm:KB", 3, 4, 0)]
     for kind, Lx, Ly, cyc in lat2:
         for mode in M:
             ch = ("E", 2) if (slow_mode(mode) or q) else ("E", 2, 3)
-            opts = ["-", "nocanon", "rev", "eq1"] + (["early", "absboth"] if mode == "mps" else []) + (["lazy"] if mode == "projector2d" else [])
+            opts = ["-", "nocanon", "rev", "eq1", "dicts"] + (["early", "absboth"] if mode == "mps" else []) + (["lazy"] if mode == "projector2d" else [])
             if mode == "full-bond":
                 opts = ["-"]
             for fw in DIRS2:
@@ -1817,6 +2170,8 @@ def cells_env2d(tier):
             opts = ["-", "dense", "nocanon", "eq1"] + ([] if q else ["eqT"])
             if q and slow_mode(mode):
                 opts = ["-"]
+            if mode in ("mps", "projector2d", "zipup", "projector") or not q:
+                opts.append("dicts")
             if mode == "mps" or (not q and mode in ("zipup", "projector2d")):
                 opts.append("dense+eq1")  # the dense branch does not depend on the mode
             for opt in opts:
@@ -1857,15 +2212,15 @@ def cells_rg(tier):
     cells = []
     # 2D
     lat = [("flat", (4, 4), 0), ("flat", (5, 3), 0), ("flat", (3, 3), 3), ("norm", (3, 3), 0)] if q else [("flat", L, c) for L in [(2, 2), (2, 3), (3, 3), (4, 4), (2, 4), (5, 3), (4, 5), (6, 2), (5, 5)] for c in (0, 1, 2, 3)] + [("flat3", (4, 3), 0), ("flatexp", (4, 4), 0), ("norm", (3, 3), 0), ("norm", (4, 3), 0)]
-    hot = ["-", "canon", "gp", "lazy", "strip", "eqT", "eq1", "nofinal", "inplace", "sep0", "sep2", "unf0", "seq:yx", "seq:x", "seq:y"]
-    ctm = ["-", "canon", "lazy", "strip", "eq1", "nofinal", "inplace", "sep0", "sep2", "seq:xy", "seq:rev"]
+    hot = ["-", "canon", "gp", "lazy", "strip", "eqT", "eq1", "nofinal", "inplace", "sep0", "sep2", "unf0", "seq:yx", "seq:x", "seq:y", "dicts", "dicts+canon"]
+    ctm = ["-", "canon", "lazy", "strip", "eq1", "nofinal", "inplace", "sep0", "sep2", "seq:xy", "seq:rev", "dicts"]
     for kind, L, cyc in lat:
         for opt in hot:
             cells.append(("rg", 2, kind, L, cyc, "contract_hotrg", opt, ("E", 2, 3)))
         for opt in ctm:
             cells.append(("rg", 2, kind, L, cyc, "contract_ctmrg", opt, ("E", 2, 3)))
         for d in "xy":
-            for opt in ("-", "canon", "lazy", "eq1", "inplace"):
+            for opt in ("-", "canon", "lazy", "eq1", "inplace", "dicts"):
                 cells.append(("rg", 2, kind, L, cyc, "cg:" + d, opt, ("E", 2, 3)))
         for opt in ("dir:None", "dir:xmin", "dir:xmax", "dir:ymin", "dir:ymax"):
             cells.append(("rg", 2, kind, L, cyc, "contract_mps_sweep", opt, ("E", 2, 3)))
@@ -1874,8 +2229,8 @@ def cells_rg(tier):
         cells.append(("rg", 2, "flat", (4, 4), 0, "contract_ctmrg", "mode:" + mode, ("E",)))
     # 3D
     lat3 = [((2, 2, 3), 0), ((3, 3, 2), 0)] if q else [((2, 2, 2), 0), ((2, 2, 3), 0), ((3, 2, 2), 0), ((2, 3, 2), 0), ((3, 3, 2), 0), ((3, 3, 3), 0), ((4, 2, 2), 0), ((2, 2, 3), 4), ((3, 3, 2), 7), ((3, 3, 3), 1)]
-    hot3 = ["-", "canon", "lazy", "strip", "eq1", "nofinal", "inplace", "sep0", "seq:zyx", "seq:z"]
-    ctm3 = ["-", "canon", "lazy", "strip", "eq1", "nofinal", "inplace", "sep0", "seq:zrev"]
+    hot3 = ["-", "canon", "lazy", "dicts", "strip", "eq1", "nofinal", "inplace", "sep0", "seq:zyx", "seq:z", "dicts+canon"]
+    ctm3 = ["-", "canon", "lazy", "dicts", "strip", "eq1", "nofinal", "inplace", "sep0", "seq:zrev"]
     for L, cyc in lat3:
         for opt in (hot3[:4] if q else hot3):
             cells.append(("rg", 3, "flat", L, cyc, "contract_hotrg", opt, ("E", 2)))
@@ -1906,7 +2261,7 @@ def cells_3d(tier):
                     continue
                 ch = ("E",) if (slow_mode(mode) or (q and seq is not None and not isinstance(seq, str))) else ("E", 2)
                 cells.append(("b3d", shape, 0, mode, seq, "-", ch))
-            names = ["nocanon", "eq1", "strip", "sep0"] if q else [o for o in OPT3D if o != "-"]
+            names = ["nocanon", "eq1", "strip", "sep0", "dicts"] if q else [o for o in OPT3D if o != "-"]
             for opt in names:
                 if opt in ("nointer", "early") and mode != "peps":
                     continue
@@ -1937,9 +2292,9 @@ def cells_3d(tier):
     # sweeps
     for shape in ([(2, 2, 3)] if q else [(2, 2, 2), (2, 2, 3), (3, 2, 2), (2, 3, 2), (3, 3, 2), (2, 2, 4), (3, 3, 3)]):
         for fw in (None,) + DIRS3:
-            for opt in ("-", "nocanon") if q else ("-", "nocanon", "nointer", "strip", "inplace", "mode:projector3d", "mode:projector", "mode:local-late"):
+            for opt in ("-", "nocanon", "dicts") if q else ("-", "nocanon", "nointer", "strip", "inplace", "mode:projector3d", "mode:projector", "mode:local-late", "dicts"):
                 cells.append(("sw3d", shape, "contract_peps_sweep", fw, opt))
-        for opt in ("-",) if q else ("-", "smudge0", "iters", "power", "eq1"):
+        for opt in ("-", "dicts") if q else ("-", "smudge0", "iters", "power", "eq1", "dicts"):
             cells.append(("sw3d", shape, "contract_simple_sweep", None, opt))
     # cell environments
     for shape in ([(2, 2, 3)] if q else [(2, 2, 2), (2, 2, 3), (3, 2, 2), (3, 3, 2)]):
@@ -1976,9 +2331,9 @@ def cells_ag(tier):
         for g in G4 + ([g for g in G5 if len(g) in (4, 5)][:3] if q else G5):
             n = nnodes(g)
             paths = all_paths(n)
-            names = list(OPTCC)
+            names = [o for o in OPTCC if o != "spandict"]
             if n == 5:
-                names = ["-", "late", "basic", "gauges", "tgd0"] if q else [o for o in names if o not in ("ptensor", "inplace", "span1", "cad1")]
+                names = ["-", "late", "basic", "gauges", "tgd0", "dicts"] if q else [o for o in names if o not in ("ptensor", "inplace", "span1", "cad1")]
             elif q:
                 names = [o for o in names if "+" not in o]
             for path in paths:
@@ -1989,9 +2344,9 @@ def cells_ag(tier):
         # contract_around*
         for g in G4 + ([] if q else G5) + [((0, 1), (1, 2), (3, 4), (4, 5), (0, 3), (1, 4), (2, 5))]:
             n = nnodes(g)
-            names = ["-", "tgd0", "tgd2", "early", "gauges", "eq1", "span1", "nomat", "gbo", "basic", "vtree"]
+            names = ["-", "spandict", "tgd0", "tgd2", "early", "gauges", "eq1", "span1", "nomat", "gbo", "basic", "vtree"]
             if q:
-                names = names[:6]
+                names = names[:7]
             for opt in names:
                 for site in range(n):
                     cells.append(("ar", g, phys, "contract_around", site, opt, ("E", 2)))
@@ -2015,7 +2370,7 @@ def cells_ag(tier):
                 continue
             for method, opts in OPTTNAG.items():
                 for opt in opts:
-                    if q and opt not in ("-", "nocanon", "lazy"):
+                    if q and opt not in ("-", "nocanon", "lazy", "dicts"):
                         continue
                     cells.append(("tnag", layers, g, method, opt, ("E", "D", 2) if q else ("E", "D", 2, 3)))
     return cells
@@ -2042,6 +2397,8 @@ CELLFNS = {
     "3d": cells_3d,
     "ag": cells_ag,
     "cb": cells_cb,
+    "cct": cells_cct,
+    "hist": cells_hist,
 }
 
 
